@@ -180,6 +180,11 @@ def c18_tasks(pid, tier, repo, seed, R):
             tasks.append(dict(kind="api", repo=repo, seed=seed, cname=c, role=role, rootkind=rk, methods=meths,
                               props=["C18"], threads=True, label=f"C18:internal:{c}:{role}"))
     tasks += def_tasks(pid, tier, repo, seed, R, ["_from_base"])
+    # the shared-memory _flush re-creates an object's own data: the store-site shape obligation (Inv.node) on its paths
+    for c in concrete_classes(R):
+        if R["classes"][c]["isa"].get("SharedMemoryFileBufferedCollection"):
+            tasks.append(dict(kind="buffers", repo=repo, seed=seed, what="flush", cname=c, props=[pid], threads=True,
+                              label=f"{pid}:buffer:{c}:flush"))
     return tasks
 
 
@@ -240,6 +245,8 @@ def c10_tasks(pid, tier, repo, seed, R):
             for threads in ((True, False) if tier == "thorough" else (True,)):
                 tasks.append(dict(kind="locks", repo=repo, seed=seed, what="repoint", cname=c, props=[pid], threads=threads,
                                   label=f"C10:repoint:{c}:threads={threads}"))
+            tasks.append(dict(kind="locks", repo=repo, seed=seed, what="interference", cname=c, props=[pid], threads=True,
+                              label=f"C10:interference:{c}"))
     return tasks
 
 
